@@ -255,8 +255,8 @@ def check_C08(ctx):
         dict(name="upd-arr", alphabet="OpsArr", clients="Seq2", editors=E2, feat='{"idle", "fail"}', weight=10, maxedits=6, **ARR),
         dict(name="upd-txt", alphabet="OpsTxt", clients="Seq2", editors=E2, feat='{"idle", "fail"}', weight=8, maxedits=6, **TXT),
         dict(name="upd-tree", alphabet="OpsTreeText", clients="Seq2", editors=E2, feat='{"idle", "fail"}', weight=10, maxedits=6, **TREE),
-        dict(name="upd-nest-snap", alphabet="OpsNest", clients="Seq2", editors=E2, feat='{"idle", "fail", "undo"}', weight=6, maxedits=6,
-             threshold=2, interval=2, maxundo=3, **OBJ),
+        dict(name="upd-nest-snap", alphabet="OpsNest", clients="Seq2", editors=E2, feat='{"idle", "fail"}', weight=6, maxedits=6,
+             threshold=2, interval=2, **OBJ),
     ]
     viols = sim_families(ctx, fams, C08_TAGS, n)
     fresh, known = split_known(ctx, viols)
@@ -336,8 +336,8 @@ def check_C15(ctx):
     quick = ctx.tier == "quick"
     n = 150 if quick else 2000
     fams = []
-    for nm, alpha, extra in [("arr", "OpsArrNoMove", ARR), ("obj", "OpsObj", OBJ), ("txt", "OpsTxt", TXT), ("cnt", "OpsCnt", dict(kinds=["n"], init=[])),
-                             ("tree", "OpsTreeText", TREE), ("treeel", "OpsTreeElem", TREE), ("arrmv", "OpsArr", ARR)]:
+    for nm, alpha, extra in [("arr", "OpsArrNoMove", ARR), ("cnt", "OpsCnt", dict(kinds=["n"], init=[])),
+                             ("arrmv", "OpsArr", ARR)]:
         fams.append(dict(name="undo-" + nm, alphabet=alpha, clients="Seq2", editors=E2, feat='{"idle", "undo"}', maxundo=3, maxedits=3, weight=4, **extra))
     viols = sim_families(ctx, fams, C15_TAGS, n)
     if ctx.counters.get("undos", 0) == 0:
